@@ -128,13 +128,14 @@ def parseOps (s : String) : Option OpsClass :=
 
 def mpRun (fields : List String) : String :=
   match fields with
-  | [mu, mm, cl, dl, tl, fault, ct, _q, ops, mp, parts, term] =>
+  | [mu, mm, cl, dl, tl, fault, ct, _q, ops, mp, sd, parts, term] =>
     let r : Option String := do
       let cfg : Cfg := ⟨← mu.toInt?, ← mm.toInt?⟩
       let fs : FsPlan := ⟨fun _ => fault == "C", fun _ => false, fun _ => false⟩
       let req : Req := {
         cfg := cfg, contentLength := ← cl.toInt?, dlen := ← dl.toNat?, tail := ← tl.toNat?,
         boundaryOk := ct == "ok", fs := fs, ops := ← parseOps ops, map := ← parseMap mp,
+        opsSelfDelim := sd.startsWith "1", mapSelfDelim := sd.endsWith "1",
         parts := ← parseParts parts, term := if term == "eof" then .eof else .err }
       let res := run guards req
       let rs := res.during.readers.reverse
